@@ -134,6 +134,10 @@ def random_cut_case(rng, max_heavy, kinds=('$', '><'), max_parts=6, mol_kw=None,
             case['frags'][name] = ''.join('(' if x[0] == 'open' else ')' if x[0] == 'close' else x[1] for x in new_toks)
     items = list(case['frags'].items())
     rng.shuffle(items)
+    decoy = None
+    if rng.random() < 0.08:
+        # a second, different definition under a name that is already defined earlier in the block: the first one counts
+        decoy = (rng.choice(items)[0], rng.choice(['C', 'CC[$]', 'O[$zz]', 'N#C']))
     smiles = M.molecule_smiles(rng, g)
     ctor = ctor or rng.choice(['string', 'string', 'string', 'from_graph', 'from_fragment_dicts'])
     alt = [G.to_string(M.base_to_ast(rng, case['base'])[0]) for _ in range(2)] if len(case['base']) >= 3 else []
@@ -150,8 +154,10 @@ def random_cut_case(rng, max_heavy, kinds=('$', '><'), max_parts=6, mol_kw=None,
         # fragment names as people write them: element-like, lower case, starting with a digit, prefixes of each other
         names = dict(zip(('F%d' % i for i in range(nparts)), rng.sample(NAME_POOL, nparts)))
         feats.add('diverse_fragment_names')
+    if decoy:
+        feats.add('second_definition_of_a_defined_name')
     out = dict(kind='cut', base_ast=ast, base_string=G.to_string(ast),
-                frag_string='{' + ','.join('#%s=%s' % kv for kv in items) + '}',
+                frag_string='{' + ','.join('#%s=%s' % kv for kv in items + ([decoy] if decoy else [])) + '}',
                 base_graph={'nodes': [[n, case['base'].nodes[n]['fragname']] for n in base_nodes],
                             'edges': [[a, b, d['order']] for a, b, d in case['base'].edges(data=True)]},
                 ctor=ctor, alt_base_strings=alt, single='{[#M]}.{#M=%s}' % smiles, smiles=smiles, truth=truth_to_json(truth),
@@ -469,6 +475,13 @@ def add_virtual(rng, case, n_virtual=None, n_zero_edges=None, order=0):
             if not base.has_edge(a, b):
                 base.add_edge(a, b, order=0)
     feats = set(case['features'])
+    real_edges = [(a, b) for a, b, d in base.edges(data=True) if d['order'] >= 1 and a in real and b in real]
+    if real_edges and not order and rng.random() < 0.2:
+        # a base edge that asks for one bond more than the fragments have descriptors for: the surplus is tolerated
+        # silently and must not be carried over to another edge (an order-0 edge in particular)
+        a, b = rng.choice(real_edges)
+        base.edges[a, b]['order'] += 1
+        feats.add('surplus_edge_order')
     pos = rng.choice(['first', 'any', 'any', 'last'])
     start = rng.choice(virt) if pos == 'first' else None
     ast, pre = M.base_to_ast(rng, base, start=start)
